@@ -236,6 +236,35 @@ def run(ctx):
                     fl.insert(pos, 'empty @is_you() { %s tag(%s); write(\'.\'); }' % (decls, arg[0]))
                     cid = 'm%d' % k; k += 1
                     jobs.append((cid, '\n'.join(fl), [], 2, 200, False, 100000)); want[cid] = e
+    # several parameters (and overloads of different arity under one name): an overload matches exactly when *every* argument does,
+    # and by coercion when *every* argument is coercible - not the last one only
+    def expected_multi(ovs, args):
+        for i, ps in enumerate(ovs):
+            if len(ps) == len(args) and all(exact(a, q) for a, q in zip(args, ps)): return i
+        for i, ps in enumerate(ovs):
+            if len(ps) == len(args) and all(coercible(a, q) for a, q in zip(args, ps)): return i
+        return None
+    nm = 0
+    tries = 0
+    while nm < ctx.budget(400, 6000) and tries < 400000:
+        tries += 1
+        ovs = []
+        for _ in range(ctx.rng.choice([2, 2, 3, 4])):
+            ps = tuple(ctx.rng.choice(PARAMS) for _ in range(ctx.rng.choice([2, 2, 2, 3, 1])))
+            if ps not in ovs: ovs.append(ps)
+        args = [ctx.rng.choice(ARGS) for _ in range(ctx.rng.choice([2, 2, 3]))]
+        e = expected_multi(ovs, args)
+        # favour the interesting case: an earlier overload of the right arity that fits in some positions but not in all
+        partial = any(len(ps) == len(args) and any(coercible(a, q) for a, q in zip(args, ps)) and not all(coercible(a, q) for a, q in zip(args, ps))
+                      for ps in ovs[:e if e is not None else len(ovs)])
+        if not partial and ctx.rng.random() < 0.8: continue
+        if e is None and ctx.rng.random() < 0.98: continue
+        fl = ['empty tag(%s) { write(%d); }' % (', '.join('%s p%d' % (q, j) for j, q in enumerate(ps)), i) for i, ps in enumerate(ovs)]
+        fl.insert(k % (len(ovs) + 1), 'empty @is_you() { %s tag(%s); write(\'.\'); }' % (decls, ', '.join(a[0] for a in args)))
+        cid = 'n%d' % k; k += 1; nm += 1
+        jobs.append((cid, '\n'.join(fl), [], 2, 200, False, 100000)); want[cid] = e
+    # ... and the typed trees of these calls against the typechecker model (the binding is in the tree)
+    frontend.tc_suite(ctx, {j[0]: j[1] for j in jobs if j[0].startswith('n')})
     cases, rejected = suites.compile_cases(jobs)
     res = hidlib.run_parallel(cases)
     rej = dict(rejected)
